@@ -984,7 +984,17 @@ func (m *Monitor) afterInvoke(i int, op *Op, f *Fn, rec *OpRec) {
 	cl := rec.Verdict
 	st := m.inv
 	if cl == VCycle && op.Invalid == "" && !m.w.h.Opts.Dry {
-		m.checkCyclePath(OpInvoke, nil, rec)
+		foreign := false
+		if st != nil {
+			for _, e := range st.failed {
+				if e.Err != nil && e.Err.Cycle {
+					foreign = true // the path is that of another container's rejection (F25)
+				}
+			}
+		}
+		if !foreign {
+			m.checkCyclePath(OpInvoke, nil, rec)
+		}
 	}
 	if op.Invalid != "" {
 		if rec.Panic != nil {
@@ -1074,7 +1084,12 @@ func (m *Monitor) afterInvoke(i int, op *Op, f *Fn, rec *OpRec) {
 	case len(st.failed) > 0:
 		m.stats["invoke.with-error"]++
 		e := st.failed[0]
-		if cl != VUser {
+		if cl == VCycle && e.Err != nil && e.Err.Cycle && errors.Is(rec.Err, e.Err) {
+			// known finding F25 (same mechanism as F16): IsCycleDetected looks through the user's error and
+			// finds the cycle rejection of ANOTHER container that it wraps
+			m.stats["invoke.with-nested-cycle-error"]++
+			m.violate("C13", "C13.foreign-cycle-misclassified", "f%d returned an error that wraps another container's cycle rejection; IsCycleDetected(err) is true although this container rejected no cycle", e.Fn)
+		} else if cl != VUser {
 			m.violate("C07,C04,C13", "C07.failure-hidden", "f%d returned an error but the Invoke verdict is %s (%v)", e.Fn, cl, rec.Err)
 		} else if e.Fn == f.ID {
 			if rec.Err != error(e.Err) {
